@@ -19,7 +19,7 @@ func init() {
 		Level: "other",
 		Explanation: "Decided (structural necessary conditions of 'chunks cover the document once, in order'): (R12.1) the element type switch of the document chunker has a case for every type that implements model.Element; (R12.2) every container that section building fills (Section.Content, Section.Children) is drained by a function reachable from Chunk; (R12.3) the section-building and chunking loops transfer every element on every path or skip only on emptiness; (R12.4) every create*Chunk function advances the chunk index exactly once on every path and TotalChunks is len(chunks); (R12.5) in the paragraph splitter every direct emission happens with the pending buffer empty (flushed on every path before it), so document order is kept; (R12.6) the two TOC matchers (is-heading / heading-level) use the same page and text equality; (R12.7) the page number stamped on model pages survives AddPage (shared with C10). " +
 			"Not decided: exactly-once coverage as a multiset, section-path correctness for arbitrary heading orders, page ranges of split chunks.",
-		Rules: []func(*eng.Ctx){ruleTOCEntryPerHeading, loopVarRule("R12.LV", "rag", "model"), ruleElementExhaustive, ruleDrainedContainers, ruleLossyFilterC12, ruleChunkIndexing, ruleEmitAfterFlush, ruleTOCSiblings, rulePageStamp, ruleSplitLoopDrains, ruleSectionPathChain, roleRule("R12.R", "rag"), ruleFlushResets, ruleBuildSectionsCloseByLevel, ruleWorklistOrderC12, ruleRowCellsComplete, ruleIndexUnits, ruleFlushConsumesPending},
+		Rules: []func(*eng.Ctx){constructorBypassedRule("R12.CL", "rag"), ruleChunkerCoversDocumentEvaluated, deleteInRangeRule("R12.DR", "rag"), ruleTOCEntryPerHeading, loopVarRule("R12.LV", "rag", "model"), ruleElementExhaustive, ruleDrainedContainers, ruleLossyFilterC12, ruleChunkIndexing, ruleEmitAfterFlush, ruleTOCSiblings, rulePageStamp, ruleSplitLoopDrains, ruleSectionPathChain, roleRule("R12.R", "rag"), ruleFlushResets, ruleBuildSectionsCloseByLevel, ruleWorklistOrderC12, ruleRowCellsComplete, ruleIndexUnits, ruleFlushConsumesPending},
 	})
 }
 
